@@ -448,6 +448,7 @@ def check_consts():
 # ---- plan / shards --------------------------------------------------------------------------------------
 
 def plan(tier):
+    build_slice().compile()      # compile once in the parent (cache); a slice that no longer compiles => exit 2
     quick = tier == 'quick'
     n = 64 if quick else 300
     g = 4 if quick else 12
@@ -458,7 +459,7 @@ def plan(tier):
         specs.append(dict(kind='gt_range', lo=total * i // parts, hi=total * (i + 1) // parts, rec=(i == 0)))
     w = 10**5 if quick else 4 * 10**6
     specs.append(dict(kind='gt_range', lo=LIMIT - w, hi=LIMIT, rec=False))
-    per = 3000 if quick else 60000
+    per = 2500 if quick else 60000
     for _ in range(4 if quick else 8):
         specs.append(dict(kind='hyp_call', n=per))
     for _ in range(2):
